@@ -59,7 +59,12 @@ OpClauses(e, s, t) ==
   LET a == e.a  r == e.ret IN
   CASE e.op = "init" -> {}
     [] e.op = "var" -> Bool2Set(VarC(s, t, a.name, r), "op.var")
-    [] e.op = "ite" -> Bool2Set(IteC(s, t, a.g, a.u, a.v, r), "op.ite")
+    [] e.op = "ite" ->
+         \* a witness call re-asks, after a cache-clearing action, a question the
+         \* computed table answered before it: a wrong or dangling answer is a
+         \* result remembered for a dead or re-used node (C06) and a wrong ITE (C01)
+         IF IteC(s, t, a.g, a.u, a.v, r) THEN {}
+         ELSE IF a.witness THEN {"op.ite", "gc.stale_result"} ELSE {"op.ite"}
     [] e.op = "apply" ->
          LET c == Connective(a.op) IN
          IF c = "unknown" THEN {"op.apply.unknown_accepted"}
